@@ -16,9 +16,10 @@ MANIFEST = {
             'into one phase row at an index has a partner store into the other row at the same index and the two values sum symbolically to the conserved total of '
             'that region (mol_vle, the pooled liquid, the solute amount, or the documented reactive variants); in-place transfers add and remove the same amount; '
             'the vapour amount returned by the fixed-point solver is clipped into [0, total]; the H/S correction fraction and the lever-rule fraction are clamped '
-            "before use; locked chemicals are written only in _setup; in LLE.__call__ every complement A = W - B has B = q*W or the solver's split of the same W, a "
-            'necessary condition of 0 <= B <= W. In SLE the clamp bound equals N/(A+N) for the dissolved amount A*x/(1-x), the only bound for which the solid stays '
-            'non-negative and nothing soluble is kept solid. That the numerical solvers respect their bounds is not decided.',
+            "before use and the amount taken out of a phase row is that fraction of the row's own entries; locked chemicals are written only in _setup; in "
+            "LLE.__call__ every complement A = W - B has B = q*W or the solver's split of the same W, a necessary condition of 0 <= B <= W. In SLE the clamp bound "
+            'equals N/(A+N) for the dissolved amount A*x/(1-x), the only bound for which the solid stays non-negative and nothing soluble is kept solid. That the '
+            'numerical solvers respect their bounds is not decided.',
 }
 
 VLEF = 'thermosteam/equilibrium/vle.py'
